@@ -31,7 +31,9 @@ var c18UrlStrings = []string{"hello world", "a b c", " lead", "trail ", "a  b", 
 	// bytes that are not valid UTF-8 (a Latin-1 / GBK form value): the value is what was sent, byte for byte
 	"caf\xe9", "\xd6\xd0", "a\xffb", "\xe9",
 	// control characters
-	"ab\tcd", "a\nb", "x\x7f", "\x01"}
+	"ab\tcd", "a\nb", "x\x7f", "\x01",
+	// texts that a numeric reading would call zero, false or nothing: as strings they are supplied values like any other
+	"0", "00", "0.0", "-0", "false", "null", "nil", "0x0", "+0", " "}
 
 func c18Markers(o drive.Out) (set []string, other []string) {
 	if o.Nil || o.Panic != "" {
